@@ -492,3 +492,36 @@ package codecs
 //@   ensures flags [C09,C13]: result1 == nil ==> (p.Z <==> bits(payload[0], 7, 7) == 1) && (p.Y <==> bits(payload[0], 6, 6) == 1) && int(p.W) == bits(payload[0], 5, 4) && (p.N <==> bits(payload[0], 3, 3) == 1) && !(p.Z && p.N)
 //@   ensures rest [C09]: result1 == nil ==> sameobj(result0, payload) && off(result0) == off(payload) + 1 && len(result0) == len(payload) - 1
 //@ end
+
+// ===== C08 (and the FU-A size clauses of C10): H264Payloader =====
+//
+// bytes.Index: position of the first occurrence, or -1.
+//@ trusted-spec bytes.Index
+//@   ensures found [C08]: result0 == -1 || (0 <= result0 && result0 + len(sep) <= len(s) && eqseq(s, result0, sep, 0, len(sep)))
+//@ end
+//
+// The Annex-B splitter and the per-NAL-unit closure are executed inside Payload
+// (they have no life of their own: the closure writes Payload's fragment list);
+// their loops carry invariants about Payload's variables.
+//@ pure bool h264Frags(ps, n, mtu) = forall k :: 0 <= k && k < n ==> ps[k] != nil && fresh(ps[k]) && 1 <= len(ps[k]) && len(ps[k]) <= mtu
+//@ spec (*H264Payloader).Payload>emitNalus
+//@   inline
+//@   loop 0: invariant captured [C08]: p == old(p) && mtu == old(mtu) && sameSlice(nals, old(payload))
+//@   loop 0: invariant scan [C08]: 0 <= start && (offset == 3 || offset == 4) && start + offset <= length && length == len(nals) && int(nals[start + offset - 1]) == 1
+//@   loop 0: invariant frags [C08]: (fresh(payloads) || cap(payloads) == 0) && len(payloads) >= 0
+//@   loop 0: invariant state [C08]: (p.spsNalu == nil || fresh(p.spsNalu) || sameSlice(p.spsNalu, old(p.spsNalu))) && (p.ppsNalu == nil || fresh(p.ppsNalu) || sameSlice(p.ppsNalu, old(p.ppsNalu)))
+//@   loop 0: decreases length - start
+//@ end
+//@ spec (*H264Payloader).Payload$1
+//@   inline
+//@   loop 0: invariant captured [C08]: p == old(p) && mtu == old(mtu) && sameobj(nalu, old(payload))
+//@   loop 0: invariant fua [C08,C10]: naluRemaining >= 0 && naluIndex >= 1 && naluIndex + naluRemaining == len(nalu) && maxFragmentSize == int(mtu) - 2 && maxFragmentSize >= 1
+//@   loop 0: invariant frags [C08]: (fresh(payloads) || cap(payloads) == 0) && len(payloads) >= 0
+//@   loop 0: invariant state [C08]: (p.spsNalu == nil || fresh(p.spsNalu) || sameSlice(p.spsNalu, old(p.spsNalu))) && (p.ppsNalu == nil || fresh(p.ppsNalu) || sameSlice(p.ppsNalu, old(p.ppsNalu)))
+//@   loop 0: decreases naluRemaining
+//@ end
+//@ spec (*H264Payloader).Payload
+//@   modifies p.spsNalu, p.ppsNalu
+//@   ensures owned [C08]: len(result0) > 0 ==> fresh(result0)
+//@   ensures state_owned [C08]: (p.spsNalu == nil || fresh(p.spsNalu) || sameSlice(p.spsNalu, old(p.spsNalu))) && (p.ppsNalu == nil || fresh(p.ppsNalu) || sameSlice(p.ppsNalu, old(p.ppsNalu)))
+//@ end
